@@ -1,4 +1,5 @@
-(* C22 -- the compiler's exception-state scheme refines CPython's semantics.
+(* C22 -- the compiler's exception-state scheme refines CPython's semantics (all statements,
+   with-blocks included).
    Induction on statements (mutual with handler lists); invariant Rel: same core (heap, names,
    log), the scheme's top exc_info item is the reference one or (unrepaired ExceptionSave, nothing
    in the reference top item) the topmost value underneath, and live handler temps hold the
@@ -216,26 +217,10 @@ Proof.
   - exists ORet; repeat split; auto; discriminate.
 Qed.
 
-(* the proved fragment: everything except with-blocks *)
-Fixpoint no_with (s : stmt) : bool :=
-  match s with
-  | SWith _ _ _ => false
-  | SSeq a b => no_with a && no_with b
-  | STry b hs e => no_with b && no_with_h hs && no_with e
-  | SFinally a b => no_with a && no_with b
-  | SLoop _ b => no_with b
-  | _ => true
-  end
-with no_with_h (hs : handlers) : bool :=
-  match hs with
-  | HNil => true
-  | HCons _ _ b tl => no_with b && no_with_h tl
-  end.
-
 Definition PS (s : stmt) : Prop :=
-  no_with s = true -> forall r c, Rel r c -> Res (exec_ref s r) (exec_sch fx sx (desugar s) c) r c.
+  forall r c, Rel r c -> Res (exec_ref s r) (exec_sch fx sx (desugar s) c) r c.
 Definition PH (hs : handlers) : Prop :=
-  no_with_h hs = true -> forall e sv r c, Rel r c -> top_rel (below c) (top r) sv ->
+  forall e sv r c, Rel r c -> top_rel (below c) (top r) sv ->
     Res (handle_ref hs e r) (handle_sch fx sx (desugar_h hs) e sv c) r c.
 
 Ltac ih IH rr cc HR :=
@@ -262,22 +247,89 @@ Ltac nocrash :=
       apply (proj2 ref_no_crash hs e r); rewrite H; reflexivity
   end.
 
+Lemma rel_set_wx r c w : Rel r c -> Rel r (set_wx w c).
+Proof. intros (Hc & Hb & Ht & Hv & Hz). repeat split; simpl; auto. Qed.
+
+Lemma post_intro r c r' c' :
+  Rel r' c' -> wx c' = wx c -> shape c c' -> below c' = below c -> top r' = top r -> Post r c r' c'.
+Proof. intros; repeat split; auto; apply H. Qed.
+
+Lemma lift_frame g st :
+  cur (snd (lift g st)) = cur st /\ below (snd (lift g st)) = below st /\
+  top (snd (lift g st)) = top st /\ wx (snd (lift g st)) = wx st.
+Proof. unfold lift. destruct (g (co st) (handled st)); simpl; auto. Qed.
+
+(* the end of a with-block: the scheme puts the statement's own exit_var flag back *)
+Lemma res_close r c r' c' o :
+  Rel r' c' -> shape c c' -> below c' = below c -> top r' = top r ->
+  Res (o, r') (o, set_wx (wx c) c') r c.
+Proof.
+  intros HR' S B T. right. split; auto. cbn [snd].
+  apply post_intro; auto using rel_set_wx.
+Qed.
+
+(* leaving the implicit handler / the pending-exception part of a with-block *)
+Lemma rel_exit r1 c1 rX cY sv :
+  Rel r1 c1 -> co rX = co cY -> below rX = below r1 -> below cY = below c1 ->
+  top_rel (below c1) (top r1) sv ->
+  Rel (set_top (top r1) rX) (set_top sv (set_cur (cur c1) cY)).
+Proof.
+  intros (Hc & Hb & Ht & Hv & Hz) Hco B1 B2 Hsv. repeat split; simpl; auto; try congruence.
+Qed.
+
+Lemma rel_reset r1 c1 sv : Rel r1 c1 -> top_rel (below c1) (top r1) sv -> Rel r1 (set_top sv c1).
+Proof. intros (Hc & Hb & Ht & Hv & Hz) Hsv. repeat split; simpl; auto. Qed.
+
+(* __exit__(None, None, None) after a body that was left without an exception *)
+Lemma with_exit_none k x r c r1 cA o :
+  Rel r1 cA -> shape c cA -> below cA = below c -> top r1 = top r ->
+  (forall e, o <> ORaise e) ->
+  Res (match x with
+       | XRaise n => lift (raise_internal n) (logst (ev_exit k None) r1)
+       | _ => (o, logst (ev_exit k None) r1)
+       end)
+      (let (o', c2) :=
+         (let (o2, c3) :=
+            match x with
+            | XRaise n => lift (raise_internal n) (logst (ev_exit k None) (set_wx false cA))
+            | _ => (ONorm, logst (ev_exit k None) (set_wx false cA))
+            end in (after o o2, c3)) in
+       (o', set_wx (wx c) c2)) r c.
+Proof.
+  intros HRA S B T NR.
+  assert (HRL : Rel (logst (ev_exit k None) r1) (logst (ev_exit k None) (set_wx false cA))).
+  { apply (logst_post (ev_exit k None) r1 (set_wx false cA)). apply rel_set_wx; auto. }
+  destruct x as [| |n].
+  - cbn [after]. apply res_close; auto.
+  - cbn [after]. apply res_close; auto.
+  - destruct (lift_rel (raise_internal n) _ _ HRL) as (E & P).
+    destruct (lift_frame (raise_internal n) (logst (ev_exit k None) r1)) as (_ & _ & T3 & _).
+    destruct (lift_frame (raise_internal n) (logst (ev_exit k None) (set_wx false cA))) as (C3 & B3 & _ & _).
+    destruct (lift_raise_internal_oc n (logst (ev_exit k None) r1)) as [e2 He2].
+    destruct (lift (raise_internal n) (logst (ev_exit k None) r1)) as [o1 r3].
+    destruct (lift (raise_internal n) (logst (ev_exit k None) (set_wx false cA))) as [o2 c3].
+    cbn [fst snd] in *. subst o2. subst o1.
+    replace (after o (ORaise e2)) with (ORaise e2) by (destruct o; reflexivity).
+    apply res_close.
+    + apply P.
+    + unfold shape in *. rewrite C3. exact S.
+    + rewrite B3. exact B.
+    + rewrite T3. exact T.
+Qed.
+
 Lemma main : (forall s, PS s) /\ (forall hs, PH hs).
 Proof.
   apply stmt_handlers_ind; unfold PS, PH.
-  - (* SSkip *) intros _ r c HR. right. simpl. split; auto using post_refl.
-  - (* SLog *) intros n _ r c HR. right. simpl. split; auto using logst_post.
-  - (* SProbe *) intros _ r c HR. right. simpl. split; auto using logst_post.
-  - (* SRaise *) intros w cz _ r c HR. right. simpl. apply lift_rel; auto.
-  - (* SReraise *) intros _ r c HR. simpl. apply reraise_res; auto.
-  - (* SSeq *) intros a IHa b IHb NW r c HR. simpl in NW. apply andb_prop in NW. destruct NW as [NW1 NW2].
-    specialize (IHa NW1). specialize (IHb NW2). simpl. ih IHa r c HR.
+  - (* SSkip *) intros r c HR. right. simpl. split; auto using post_refl.
+  - (* SLog *) intros n r c HR. right. simpl. split; auto using logst_post.
+  - (* SProbe *) intros r c HR. right. simpl. split; auto using logst_post.
+  - (* SRaise *) intros w cz r c HR. right. simpl. apply lift_rel; auto.
+  - (* SReraise *) intros r c HR. simpl. apply reraise_res; auto.
+  - (* SSeq *) intros a IHa b IHb r c HR. simpl. ih IHa r c HR.
     + left; auto.
     + destruct o; try (right; split; auto; fail).
       eapply res_trans; eauto. apply IHb. apply H0.
-  - (* STry *) intros body IHbody hs IHhs orelse IHorelse NW r c HR. simpl in NW.
-    apply andb_prop in NW. destruct NW as [NW NW3]. apply andb_prop in NW. destruct NW as [NW1 NW2].
-    specialize (IHbody NW1). specialize (IHhs NW2). specialize (IHorelse NW3). simpl.
+  - (* STry *) intros body IHbody hs IHhs orelse IHorelse r c HR. simpl.
     pose proof (saved_rel _ _ HR) as Hsv.
     remember (if sx then top c else handled c) as sv eqn:Esv. clear Esv.
     ih IHbody r c HR.
@@ -293,8 +345,7 @@ Proof.
            destruct o; right; split; auto; apply post_reset; auto.
       * (* handlers *)
         eapply res_trans; eauto.
-  - (* SFinally *) intros body IHbody fin IHfin NW r c HR. simpl in NW. apply andb_prop in NW.
-    destruct NW as [NW1 NW2]. specialize (IHbody NW1). specialize (IHfin NW2). simpl. ih IHbody r c HR.
+  - (* SFinally *) intros body IHbody fin IHfin r c HR. simpl. ih IHbody r c HR.
     + left; auto.
     + destruct H0 as (HR1 & W1 & S1 & B1 & T1).
       assert (P1 : Post r c r0 c0) by (repeat split; auto; apply HR1).
@@ -314,20 +365,89 @@ Proof.
         destruct S2 as [S2 | (F2 & S2 & _)]; simpl in S2; rewrite S2.
         -- right; split; auto.
         -- left; auto.
-  - (* SWith: outside the proved fragment *) intros k x body _ NW; discriminate.
-  - (* SLoop *) intros n body IHbody NW. simpl in NW. specialize (IHbody NW). induction n as [|n IHn]; intros r c HR.
+  - (* SWith: WithTransform = try/finally around try/except with the implicit handler *)
+    intros k x body IHb r c HR.
+    cbn [desugar]. cbn [exec_ref]. cbn [exec_sch].
+    set (r0 := logst (fun _ _ => EvEnter k) r).
+    set (c0 := set_wx true (logst (fun _ _ => EvEnter k) c)).
+    assert (P0 : Post r c r0 (logst (fun _ _ => EvEnter k) c)) by (apply logst_post; auto).
+    assert (HR0 : Rel r0 c0) by (apply rel_set_wx; apply P0).
+    pose proof (saved_rel _ _ HR0) as Hsv.
+    remember (if sx then top c0 else handled c0) as sv eqn:Esv. clear Esv. clear P0.
+    assert (Wc : wx c0 = true) by reflexivity.
+    pose proof (IHb r0 c0 HR0) as IH1.
+    destruct (exec_ref body r0) as [o r1] eqn:Er.
+    destruct (exec_sch fx sx (desugar body) c0) as [o' c1] eqn:Ec.
+    destruct IH1 as [[F1 F2] | (E1 & P1)]; cbn [fst snd] in *.
+    + subst o'. left; split; auto.
+    + subst o'. destruct P1 as (HR1 & W1 & S1 & B1 & T1).
+      assert (Hsv1 : top_rel (below c1) (top r1) sv) by (rewrite B1, T1; exact Hsv).
+      destruct o.
+      * (* body completed *)
+        cbn [exec_sch]. rewrite W1, Wc.
+        apply with_exit_none; auto; discriminate.
+      * (* exception in the body: the implicit handler calls __exit__ with the exception *)
+        cbn [exec_sch handle_sch pat_matches orb negb trivial bind_opt].
+        change (cur (set_cur (Some (Some e)) (set_co (co c1) (set_top (Some e) c1)))) with (Some (Some e)).
+        cbv iota.
+        pose proof (rel_set_wx _ _ false (rel_enter0 r1 c1 e HR1)) as HRE.
+        pose proof (proj1 (logst_post (ev_exit k (Some e)) _ _ HRE)) as HRX.
+        change (set_cur (Some (Some e)) (set_top (Some e) c1))
+          with (set_cur (Some (Some e)) (set_co (co c1) (set_top (Some e) c1))) in HRE, HRX.
+        set (rX := logst (ev_exit k (Some e)) (set_top (Some e) r1)) in *.
+        set (cX := logst (ev_exit k (Some e))
+                     (set_wx false (set_cur (Some (Some e)) (set_co (co c1) (set_top (Some e) c1))))) in *.
+        assert (Sc : shape c (set_top sv (set_cur (cur c1) cX))) by exact S1.
+        destruct x as [| |n].
+        -- (* __exit__ returned false: re-raise from the handler temps *)
+           unfold reraise_sch. change (cur cX) with (Some (Some e)). cbv iota.
+           set (cY := if fx then cX else set_cur (Some None) cX).
+           assert (EY : co cY = co cX /\ below cY = below cX) by (unfold cY; destruct (fx); auto).
+           destruct EY as (EY1 & EY2).
+           apply res_close.
+           ++ apply rel_exit; auto; try (rewrite EY1; apply HRX); try (rewrite EY2; reflexivity).
+           ++ exact S1.
+           ++ cbn [below set_top set_cur]. rewrite EY2. exact B1.
+           ++ exact T1.
+        -- (* swallowed *)
+           change (wx (set_top sv (set_cur (cur c1) cX))) with false. cbv iota. cbn [after].
+           apply res_close.
+           ++ apply rel_exit; auto. apply HRX.
+           ++ exact S1.
+           ++ exact B1.
+           ++ exact T1.
+        -- (* __exit__ raised *)
+           destruct (lift_rel (raise_internal n) _ _ HRX) as (E & P).
+           destruct (lift_frame (raise_internal n) rX) as (_ & B3r & _ & _).
+           destruct (lift_frame (raise_internal n) cX) as (C3 & B3 & _ & _).
+           destruct (lift_raise_internal_oc n rX) as [e2 He2].
+           destruct (lift (raise_internal n) rX) as [o1 r3].
+           destruct (lift (raise_internal n) cX) as [o2 c3].
+           cbn [fst snd] in *. subst o2. subst o1.
+           apply res_close.
+           ++ apply rel_exit; auto. apply P.
+           ++ exact S1.
+           ++ cbn [below set_top set_cur]. rewrite B3. exact B1.
+           ++ exact T1.
+      * cbn [exec_sch wx set_top]. rewrite W1, Wc.
+        apply with_exit_none; auto; try discriminate. apply rel_reset; auto.
+      * cbn [exec_sch wx set_top]. rewrite W1, Wc.
+        apply with_exit_none; auto; try discriminate. apply rel_reset; auto.
+      * cbn [exec_sch wx set_top]. rewrite W1, Wc.
+        apply with_exit_none; auto; try discriminate. apply rel_reset; auto.
+      * exfalso. apply (proj1 ref_no_crash body r0). rewrite Er. reflexivity.
+  - (* SLoop *) intros n body IHbody. induction n as [|n IHn]; intros r c HR.
     + right; simpl; split; auto using post_refl.
     + simpl. ih IHbody r c HR.
       * left; auto.
       * destruct o; try nocrash; try (right; split; auto; fail);
           (eapply res_trans; [exact H0|]; apply IHn; apply H0).
-  - (* SReturn *) intros _ r c HR. right. simpl. split; auto using post_refl.
-  - intros _ r c HR. right. simpl. split; auto using post_refl.
-  - intros _ r c HR. right. simpl. split; auto using post_refl.
-  - (* HNil *) intros _ e sv r c HR Hsv. right. simpl. split; auto.
+  - (* SReturn *) intros r c HR. right. simpl. split; auto using post_refl.
+  - intros r c HR. right. simpl. split; auto using post_refl.
+  - intros r c HR. right. simpl. split; auto using post_refl.
+  - (* HNil *) intros e sv r c HR Hsv. right. simpl. split; auto.
     apply post_reset; auto using post_refl.
-  - (* HCons *) intros pat name body IHbody tl IHtl NW e sv r c HR Hsv. simpl in NW.
-    apply andb_prop in NW. destruct NW as [NW1 NW2]. specialize (IHbody NW1). specialize (IHtl NW2).
+  - (* HCons *) intros pat name body IHbody tl IHtl e sv r c HR Hsv.
     assert (Hco : co c = co r) by (symmetry; apply HR).
     assert (Hcls : cls_of c e = cls_of r e) by (unfold cls_of; rewrite Hco; reflexivity).
     destruct name as [x|]; cbn [handle_ref handle_sch desugar_h]; rewrite Hcls;
@@ -380,12 +500,12 @@ Definition same_obs (pr pc : oc * state) : Prop :=
   fst pc = fst pr /\ co (snd pc) = co (snd pr) /\ handled (snd pc) = handled (snd pr).
 
 Theorem scheme_refines_reference_core : forall fx sx s r c,
-  no_with s = true -> Rel fx sx r c ->
+  Rel fx sx r c ->
   (fx = false /\ fst (exec_sch fx sx (desugar s) c) = OCrash) \/
   same_obs (exec_ref s r) (exec_sch fx sx (desugar s) c).
 Proof.
-  intros fx sx s r c NW HR.
-  destruct (proj1 (main fx sx) s NW r c HR) as [L | (E & (HR' & _))]; [left; auto | right].
+  intros fx sx s r c HR.
+  destruct (proj1 (main fx sx) s r c HR) as [L | (E & (HR' & _))]; [left; auto | right].
   repeat split; auto.
   - symmetry; apply HR'.
   - symmetry; eapply rel_handled; eauto.
@@ -393,20 +513,20 @@ Qed.
 
 (* with the repaired ReraiseStatNode: every program of the fragment, every calling context *)
 Theorem repaired_matches_reference : forall sx s h t b,
-  no_with s = true -> same_obs (run_ref s h t b) (run_sch true sx s h t b).
+  same_obs (run_ref s h t b) (run_sch true sx s h t b).
 Proof.
-  intros sx s h t b NW. unfold run_ref, run_sch.
-  destruct (scheme_refines_reference_core true sx s _ _ NW (rel_init true sx h t b)) as [(F & _) | H];
+  intros sx s h t b. unfold run_ref, run_sch.
+  destruct (scheme_refines_reference_core true sx s _ _ (rel_init true sx h t b)) as [(F & _) | H];
     [discriminate | exact H].
 Qed.
 
 (* the code as it is: equal whenever the zeroed-temps state is not reached *)
 Theorem current_matches_reference_unless_crash : forall sx s h t b,
-  no_with s = true -> fst (run_sch false sx s h t b) <> OCrash ->
+  fst (run_sch false sx s h t b) <> OCrash ->
   same_obs (run_ref s h t b) (run_sch false sx s h t b).
 Proof.
-  intros sx s h t b NW NC. unfold run_ref, run_sch in *.
-  destruct (scheme_refines_reference_core false sx s _ _ NW (rel_init false sx h t b)) as [(_ & F) | H];
+  intros sx s h t b NC. unfold run_ref, run_sch in *.
+  destruct (scheme_refines_reference_core false sx s _ _ (rel_init false sx h t b)) as [(_ & F) | H];
     [contradiction | exact H].
 Qed.
 
@@ -417,18 +537,18 @@ Definition reraise_twice : stmt :=
        SSkip.
 
 Theorem current_reraise_refuted :
-  exists s h t b, no_with s = true /\ fst (run_sch false false s h t b) = OCrash /\
+  exists s h t b, fst (run_sch false false s h t b) = OCrash /\
                   fst (run_ref s h t b) = ORaise 0.
 Proof. exists reraise_twice, [], None, None. vm_compute. auto. Qed.
 
 (* the top exc_info item after the statement *)
 Theorem top_item_restored : forall fx sx s h t b,
-  no_with s = true -> (b = None \/ sx = true) ->
+  (b = None \/ sx = true) ->
   fst (run_sch fx sx s h t b) <> OCrash ->
   top (snd (run_sch fx sx s h t b)) = t /\ top (snd (run_ref s h t b)) = t.
 Proof.
-  intros fx sx s h t b NW Hb NC. unfold run_ref, run_sch in *.
-  destruct (proj1 (main fx sx) s NW _ _ (rel_init fx sx h t b)) as [(_ & F) | (E & (HR' & _ & _ & B & T))];
+  intros fx sx s h t b Hb NC. unfold run_ref, run_sch in *.
+  destruct (proj1 (main fx sx) s _ _ (rel_init fx sx h t b)) as [(_ & F) | (E & (HR' & _ & _ & B & T))];
     [contradiction |].
   simpl in T, B. split; auto.
   destruct HR' as (_ & _ & [Ht | (Hs & Hn & Ht)] & _); rewrite Ht; auto.
@@ -439,7 +559,7 @@ Definition catch_one : stmt := STry (SRaise (RNew 3) NoCause) (HCons None None S
 Definition outer_obj : eobj := mkobj 9 true None None false.
 
 Theorem top_item_refuted :
-  exists s h t b fx, no_with s = true /\ fst (run_sch fx false s h t b) <> OCrash /\
+  exists s h t b fx, fst (run_sch fx false s h t b) <> OCrash /\
     top (snd (run_sch fx false s h t b)) <> top (snd (run_ref s h t b)).
 Proof. exists catch_one, [outer_obj], None, (Some 0), true. vm_compute. repeat split; discriminate. Qed.
 
